@@ -28,6 +28,7 @@ package utils
 //@ func ParseReceptorNamesFromCert
 //@   tags C20 C09
 //@   requires cert != nil
+//@   modifies nothing
 //@   ensures MATCH: [C20 C09] result.0 == (result.2 == nil && exists i int :: 0 <= i && i < len(result.1) && result.1[i] == expectedHostname)
 //@   ensures ERR: [C20 C09] result.2 != nil ==> !result.0 && result.1 == nil
 //@   loop range receptorNames
